@@ -1,4 +1,5 @@
 import TapkeeVerif.Model.Mat
+import TapkeeVerif.Gen.IsomapSteps
 /-!
 Model of what `IsomapImplementation::embed` (include/tapkee/methods/isomap.hpp) does between the geodesic
 matrix and the eigensolver, statement by statement, plus the dense solver's symmetrisation
@@ -13,7 +14,7 @@ namespace TapkeeVerif.IsomapPre
 variable {K : Type} {n : Nat}
 
 section
-variable [Add K] [Zero K] [Sub K] [Mul K] [Div K] [Neg K] [NatCast K]
+variable [Add K] [Zero K] [Sub K] [Mul K] [Div K] [Neg K] [NatCast K] [IntCast K]
 
 /-- `matrix.colwise().mean()` : mean of every column -/
 def colMeans (A : Mat n n K) : Vec n K := fun j => sumFin n (fun i => A i j) / ((n : Nat) : K)
@@ -39,13 +40,24 @@ def centerMatrixIso (A : Mat n n K) : Mat n n K :=
 /-- `.array().square()` -/
 def squareEntries (D : Mat n n K) : Mat n n K := fun i j => D i j * D i j
 
-/-- the matrix `IsomapImplementation::embed` hands to `eigendecomposition_via`:
-    `D.array().square()`, `centerMatrix`, `.array() *= -0.5` -/
-def isomapPre (D : Mat n n K) : Mat n n K :=
-  fun i j => centerMatrixIso (squareEntries D) i j * (-(((1 : Nat) : K) / ((2 : Nat) : K)))
-
-/-- first statements of `eigendecomposition_impl_dense`: `dense_wm += dense_wm.transpose(); dense_wm /= 2.0` -/
+/-- `m = (m + m.transpose()) / 2` -/
 def denseSym (A : Mat n n K) : Mat n n K := fun i j => (A i j + A j i) / ((2 : Nat) : K)
+
+open Gen.Isomap in
+/-- one generated statement of `IsomapImplementation::embed` -/
+def applyStep (A : Mat n n K) : Gen.Isomap.Step → Mat n n K
+  | .square => squareEntries A
+  | .symmetrise => denseSym A
+  | .center => centerMatrixIso A
+  | .scale num den => fun i j => A i j * (((num : Int) : K) / ((den : Nat) : K))
+
+/-- the matrix `IsomapImplementation::embed` hands to `eigendecomposition_via`: the generated statement list
+    (as written: `.array().square()`, `centerMatrix`, `.array() *= -0.5`) applied to the geodesic matrix -/
+def isomapPre (D : Mat n n K) : Mat n n K := Gen.Isomap.isomapSteps.foldl applyStep D
+
+/-- what the dense eigensolver decomposes: `(A + Aᵀ)/2` if `eigendecomposition_impl_dense` symmetrises -/
+def denseSolverInput (A : Mat n n K) : Mat n n K :=
+  if Gen.Isomap.denseSolverSymmetrises then denseSym A else A
 
 /-- squared geodesics with the two directions averaged (the `S` of the property statement) -/
 def avgSquares (D : Mat n n K) : Mat n n K :=
